@@ -101,7 +101,13 @@ impl TurtleConfig {
     /// `indentation` must only contain ASCII whitespaces, otherwise this method will panic.
     pub fn with_indentation<T: ToString>(mut self, indentation: T) -> Self {
         let indentation = indentation.to_string();
-        assert!(indentation.chars().all(char::is_whitespace));
+        // only the white space characters of the Turtle grammar (WS) can be used:
+        // other ones (e.g. form feed, no-break space) would make the output unparseable
+        assert!(
+            indentation
+                .chars()
+                .all(|c| matches!(c, ' ' | '\t' | '\n' | '\r'))
+        );
         self.indentation = indentation;
         self
     }
